@@ -261,6 +261,9 @@ func (e *Engine) Prelude() string {
 		sb.WriteString("(declare-fun int_witness ((Array Any Bool) Int) Any)\n")
 		sb.WriteString("(assert (forall ((D (Array Any Bool)) (k Any)) (! (=> (and (select D k) (any_is_int k)) (has_int D (any_int_val k))) :pattern ((select D k)))))\n")
 		sb.WriteString("(assert (forall ((D (Array Any Bool)) (l Int)) (! (=> (has_int D l) (and (select D (int_witness D l)) (any_is_int (int_witness D l)) (= (any_int_val (int_witness D l)) l))) :pattern ((has_int D l)))))\n")
+		// consequences of the two defining axioms, stated for the shapes that occur (adding a key, the empty set)
+		sb.WriteString("(assert (forall ((D (Array Any Bool)) (k Any) (l Int)) (! (= (has_int (store D k true) l) (or (has_int D l) (and (any_is_int k) (= (any_int_val k) l)))) :pattern ((has_int (store D k true) l)))))\n")
+		sb.WriteString("(assert (forall ((l Int)) (! (not (has_int ((as const (Array Any Bool)) false) l)) :pattern ((has_int ((as const (Array Any Bool)) false) l)))))\n")
 	}
 	// any_hashable
 	var hb strings.Builder
